@@ -37,6 +37,8 @@ class VFS:
     def __init__(self) -> None:
         self.files: dict[str, bytearray] = {}
         self.log: StampedLog = StampedLog()  # raw operations in order
+        self._fds: dict[int, int] = {}  # fake fd -> flags passed to os.open (openers)
+        self._next_fd = 100000
         self.fail: dict[str, BaseException] = {}  # op name -> exception to raise once ("open","read","write","close")
         self.opened: list[tuple] = []
 
@@ -81,6 +83,21 @@ class VFS:
             raise exc
         binary = "b" in mode
         writing = any(c in mode for c in "wax+")
+        truncate = "w" in mode
+        if opener is not None:
+            # builtin open() passes the flags it derived from the mode to the opener and uses whatever file the
+            # opener opened: emulate that, so an opener that drops O_TRUNC or O_CREAT has its real effect
+            flags = {"r": os.O_RDONLY, "w": os.O_WRONLY | os.O_CREAT | os.O_TRUNC, "a": os.O_WRONLY | os.O_CREAT | os.O_APPEND, "x": os.O_WRONLY | os.O_CREAT | os.O_EXCL}[mode.replace("b", "").replace("t", "").replace("+", "")[0]]
+            if "+" in mode:
+                flags = (flags & ~(os.O_WRONLY | os.O_RDONLY)) | os.O_RDWR
+            self._opener_calls = []
+            fd = opener(path, flags)
+            used = self._fds.pop(fd, None)
+            if used is None:
+                raise OSError("fsshim: the opener did not open the file through os.open")
+            truncate = bool(used & os.O_TRUNC)
+            if not (used & os.O_CREAT) and path not in self.files:
+                raise FileNotFoundError(2, "No such file or directory", path)
         if "r" in mode and "+" not in mode:
             if path not in self.files:
                 raise FileNotFoundError(2, "No such file or directory", path)
@@ -88,10 +105,12 @@ class VFS:
             raise FileExistsError(17, "File exists", path)
         self.opened.append((path, mode))
         self.log.append(("open", path, mode))
-        if "w" in mode:
+        if truncate:
             self.files[path] = bytearray()
         elif path not in self.files:
             self.files[path] = bytearray()
+        if "w" in mode and not truncate:
+            self.log[-1] = ("open", path, mode.replace("w", "r+"))  # what the kernel saw: no truncation
         raw = RawShim(self, path, mode)
         if buffering == 0:
             return raw
@@ -104,6 +123,11 @@ class VFS:
         if binary:
             return buf
         return io.TextIOWrapper(buf, encoding=encoding, errors=errors, newline=newline)
+
+    def os_open(self, path, flags, mode=0o777, **kw) -> int:
+        self._next_fd += 1
+        self._fds[self._next_fd] = flags
+        return self._next_fd
 
     def replace(self, src, dst, **kw) -> None:
         src, dst = os.fspath(src), os.fspath(dst)
@@ -196,6 +220,11 @@ def installed(vfs: VFS):
     """Route aiofiles (and os.replace/rename/remove/path.exists for /vfs/ paths) to the shim."""
     import aiofiles.threadpool
 
+    real_os_open = os.open
+
+    def os_open(path, flags, mode=0o777, **kw):
+        return vfs.os_open(path, flags, mode) if in_vfs(path) else real_os_open(path, flags, mode, **kw)
+
     real = {"replace": os.replace, "rename": os.rename, "remove": os.remove, "unlink": os.unlink, "exists": os.path.exists, "fsync": os.fsync}
 
     def in_vfs(p) -> bool:
@@ -236,6 +265,7 @@ def installed(vfs: VFS):
     patches = [
         patch("aiofiles.threadpool.sync_open", vfs.sync_open),
         patch("os.path.isfile", isfile),
+        patch("os.open", os_open),
         patch("os.path.getsize", getsize),
         patch("os.replace", replace),
         patch("os.rename", rename),
